@@ -3,6 +3,7 @@ import Driver.Util
 import Driver.C03
 import Driver.C06
 import Driver.C11
+import Driver.C12
 import Driver.C16
 import Driver.Smb
 open Driver
@@ -11,6 +12,7 @@ def allEntries : List Entry :=
   Driver.C03.entries
   ++ Driver.C06.entries
   ++ Driver.C11.entries
+  ++ Driver.C12.entries
   ++ Driver.C16.entries
   ++ Driver.Smb.entries
 
